@@ -198,9 +198,19 @@ def lit(v):
     return C11.lit(v)
 
 
+def _unlit_env():
+    env = {"__builtins__": {"set": set, "frozenset": frozenset, "float": float}, "E": E, "E2": E2, "E3": E3, "dt": C11._dt, "Decimal": Decimal,
+           "True": True, "False": False, "None": None,
+           # the vocabulary of c11.lit, a module that is extended independently of this one
+           "tm": datetime.time, "td": lambda us: datetime.timedelta(microseconds=us), "date": datetime.date,
+           "nan": getattr(C11, "nan_obj", lambda k: float("nan")), "np": getattr(C11, "np", None), "inf": float("inf")}
+    for cl in getattr(C11, "ENUMS", ()):
+        env.setdefault(cl.__name__, cl)
+    return env
+
+
 def unlit(s):
-    return eval(s, {"__builtins__": {"set": set, "frozenset": frozenset, "float": float}, "E": E, "E2": E2, "E3": E3, "dt": C11._dt, "Decimal": Decimal,
-                    "True": True, "False": False, "None": None})
+    return eval(s, _unlit_env())
 
 
 # --------------------------------------------------------------------------
@@ -670,7 +680,9 @@ FEATURES = [
      lambda t1, t2, sp, c: sp["enum"] and any(isinstance(k, Enum) for k in all_keys2(t1, t2)),
      both_keys(lambda k: isinstance(k, Enum), lambda k: "enum<%s.%s>" % (type(k).__name__, k.name))),
     ("C12-enum-unwrap-skips-type-check",
-     lambda t1, t2, sp, c: sp["enum"] and enum_type_clash(t1, t2),
+     # the missing type check only ever makes the diff engine MORE lenient (or makes it raise): equal hashes with a
+     # non-empty diff are never this finding
+     lambda t1, t2, sp, c: sp["enum"] and enum_type_clash(t1, t2) and not (c.get("hash_eq") is True and c.get("diff") == "nonempty"),
      both(unwrap_enum)),
     ("C12-enum-distance-TypeError",
      lambda t1, t2, sp, c: sp["enum"] and any(isinstance(a, Enum) for a in all_atoms2(t1, t2)),
@@ -854,6 +866,84 @@ def gen_enum_cross(rng, sp):
     return t1, t2, log
 
 
+def all_enum_classes():
+    out = list(ENUMS)
+    for cl in getattr(C11, "ENUMS", ()):
+        if cl not in out:
+            out.append(cl)
+    return out
+
+
+def other_typed(a, sp):
+    """the plain values of ANOTHER type that the option set makes equal to the plain value a"""
+    out = []
+    if isinstance(a, bool) or a is None:
+        return out
+    if sp["numty"] and isinstance(a, (int, float, Decimal)) and a == a:
+        if isinstance(a, int):
+            out += [float(a), Decimal(a)]
+        elif isinstance(a, float):
+            out += [Decimal(repr(a))] + ([int(a)] if a == int(a) else [])
+        else:
+            out += [float(a)] + ([int(a)] if a == int(a) else [])
+    if sp["strty"] and isinstance(a, str):
+        out.append(a.encode("utf-8"))
+        if sp["case"] and a.swapcase() != a:
+            out.append(a.swapcase().encode("utf-8"))
+    if sp["strty"] and isinstance(a, bytes):
+        try:
+            out.append(a.decode("utf-8"))
+            if sp["case"] and a.swapcase() != a:
+                out.append(a.swapcase().decode("utf-8"))
+        except UnicodeDecodeError:
+            pass
+    return out
+
+
+ENUMTY_SPECS = [dict(numty=True), dict(strty=True), dict(numty=True, strty=True), dict(strty=True, case=True), dict(numty=True, sig=1),
+                dict(numty=True, sig=0), dict(numty=True, case=True), dict(strty=True, sig=2), dict(numty=True, sig=2, note=True)]
+
+
+def enum_vs_plain_pairs(rng, n):
+    """use_enum_value together with a type-ignoring option: an Enum member facing a PLAIN value that equals the member's
+    value up to the ignored type (member 1 / 1.0 / Decimal(1), member 'x' / b'x'), and facing a member of another class
+    whose value does; at the places DeepDiff compares directly (root, dict value, nested dict value) and as list / tuple /
+    set items; both orientations; sometimes next to a genuine difference.  Systematic over members x option sets, shapes
+    drawn at random."""
+    shapes = [lambda x, o: x,
+              lambda x, o: {"k": x},
+              lambda x, o: {"k": x, "j": 3},
+              lambda x, o: {"k": {"q": x, "r": [1, "y"]}, "n": 3},
+              lambda x, o: (x, "y"),
+              lambda x, o: {"k": [x, 5]} if o else {"k": [5, x]},
+              lambda x, o: [{"k": x}, 7] if o else [7, {"k": x}],
+              lambda x, o: {"k": x, "l": (x, 2)}]
+    combos = []
+    for s in ENUMTY_SPECS:
+        sp = mk(enum=True, **s)
+        for cl in all_enum_classes():
+            for m in cl:
+                for o in other_typed(m.value, sp):
+                    combos.append((sp, m, o))
+                    # a member of another class carrying the other-typed value
+                    for cl2 in all_enum_classes():
+                        for m2 in cl2:
+                            if cl2 is not cl and type(m2.value) is type(o) and m2.value == o:
+                                combos.append((sp, m, m2))
+    rng.shuffle(combos)
+    out = []
+    # the directly compared shapes first: every (option set, member type) at least once when n allows
+    for i, (sp, m, o) in enumerate(combos[:n]):
+        sh = shapes[i % 4] if i < n // 2 else rng.choice(shapes)
+        t1, t2 = sh(m, True), sh(o, False)
+        if rng.random() < 0.15:
+            t2, _k = edit_once(rng, t2)
+        if rng.random() < 0.5:
+            t1, t2 = t2, t1
+        out.append((t1, t2, sp))
+    return out
+
+
 def gen_case_values(rng, fam, sp, rich):
     """(t1, t2, log)"""
     if fam == "enumx":
@@ -1016,6 +1106,14 @@ FIXED_RICH = [
     (["x"], E.B, _s(enum=True)), ({"k": ["x"]}, {"k": E.B}, _s(enum=True)), (E.D, frozenset([""]), _s(enum=True, case=True)), (E.A, [1], _s(enum=True)),
     (E.A, 1, _s(enum=True)), ([E.A], [1], _s(enum=True)), ({"k": E.A}, {"k": 1}, _s(enum=True)), ({E.A: 1}, {1: 1}, _s(enum=True)),
     ([E.A], [E.B], _s(enum=True)), (E.B, "x", _s(enum=True)), (E.B, "X", _s(enum=True, case=True)),
+    # use_enum_value + a type-ignoring option: a member facing an equal plain value of another type of the ignored group
+    ({"k": E.A}, {"k": 1.0}, _s(enum=True, numty=True)), (E.A, 1.0, _s(enum=True, numty=True)), ({"k": 1.0}, {"k": E.A}, _s(enum=True, numty=True)),
+    ({"k": E2.Z, "j": 3}, {"k": Decimal("2"), "j": 3}, _s(enum=True, numty=True)), ((E.A, "x"), (1.0, "x"), _s(enum=True, numty=True)),
+    ({"k": E.C}, {"k": Decimal("2.5")}, _s(enum=True, numty=True)), ({"k": {"q": E.A}}, {"k": {"q": 1.0}}, _s(enum=True, numty=True, sig=1)),
+    ({"k": E.B}, {"k": b"x"}, _s(enum=True, strty=True)), (E.B, b"x", _s(enum=True, strty=True)), ({"k": [E.B, 5]}, {"k": [5, b"x"]}, _s(enum=True, strty=True)),
+    ({"k": E.D}, {"k": b"x"}, _s(enum=True, strty=True, case=True)), (b"X", E3.S, _s(enum=True, strty=True, case=True)),
+    ({"k": E.A}, {"k": 2.0}, _s(enum=True, numty=True)), ({"k": E.B}, {"k": b"y"}, _s(enum=True, strty=True)),
+    ({"k": E.A}, {"k": 1.0}, _s(enum=True)), ({"k": E.A}, {"k": 1.0}, _s(numty=True)), ({"k": E.B}, {"k": b"x"}, _s(enum=True)),
 ]
 
 
@@ -1258,6 +1356,8 @@ def run(ctx):
         sp = dict(mods[i % len(mods)], enum=True)
         t1, t2, _log = gen_enum_cross(rng, sp)
         rich.append(("enumx", t1, t2, sp, rng.random() < 0.5, False))
+    for t1, t2, sp in enum_vs_plain_pairs(rng, 400 if ctx.thorough else 90):
+        rich.append(("enumty", t1, t2, sp, rng.random() < 0.5, False))
     dspecs = [mk(trunc="day"), mk(trunc="hour"), mk(trunc="hour", tz=330), mk(trunc="day", tz=-300), mk(trunc="minute"), mk(tz=345), mk(trunc="day", case=True)]
     for i in range(400 if ctx.thorough else 70):
         sp = dspecs[i % len(dspecs)]
